@@ -698,7 +698,7 @@ def m_object_setattr(I, args, kwargs):
         if name == '__class__':
             I.setcell(o, ObjCell(v, c.fields))
             return None
-        I.check_slot(c.cls, name)
+        name = I.check_slot(c.cls, name)
         I.setcell(o, c.set(name, v))
         return None
     if isinstance(o, SSeq):
@@ -710,7 +710,7 @@ def m_object_setattr(I, args, kwargs):
         o.fields[name] = v
         return None
     if isinstance(o, SymObj):
-        I.check_slot(o.cls, name)
+        name = I.check_slot(o.cls, name)
         I.st.overlay[(o.t.get_id(), name)] = (o.t, v)
         return None
     raise OutOfReach('object.__setattr__ on %r' % (o,))
@@ -723,6 +723,12 @@ def m_object_delattr(I, args, kwargs):
         if name not in c.fields:
             I.raise_exc(AttributeError, name)
         I.setcell(o, c.delete(name))
+        return None
+    if isinstance(o, SymObj):
+        # every declared field of a symbolic object is set, so deleting a slot succeeds; a later read of the deleted
+        # attribute is out of reach (it would raise AttributeError)
+        name = I.check_slot(o.cls, name)
+        I.st.overlay[(o.t.get_id(), name)] = (o.t, Opaque('deleted attribute %s' % name, object))
         return None
     raise OutOfReach('object.__delattr__')
 
